@@ -127,6 +127,6 @@ CLAIM = dict(
          "(every NaN through its exact bits, infinities, negative zero, integers as signed decimal + unsigned suffix); per-constant proofs on ~190 class "
          "representatives + seeded random patterns in three syntactic positions with CBMC parsing the generated text. The %.9g/%.17g decimal path is outside "
          "the verifier: bounded native stand-in, labelled as such.",
-    note="Assumed: compilers parse decimal literals with correct rounding; CBMC's literal parser. Decimal round trip for all values is not proved (bounded native sweep).",
+    note="Assumed: compilers parse decimal literals with correct rounding; CBMC's literal parser. Decimal round trip for all values is not proved (bounded native sweep); likewise that the decimal text written for i32/i64 literals denotes the value (render-and-parse-back exceeded every installed solver): bounded native check over powers of ten, chunk boundaries, limits and seeded values.",
     technique="CBMC contracts on decoders and on wasmCWriteLiteral (ghost string recorder) + per-constant contracts on generated C; native decimal sweep as bounded stand-in",
 )
